@@ -141,7 +141,7 @@ def run(ctx):
     # directed sessions: a server that lists names as literals; what the client reports must be what the server holds, and
     # every reported name must be usable as it stands
     for names in [["lists\\dev", "a"], ['q"uote', "back\\slash", "x"], ["c:\\dir\\f", "été", "sp ace"], ["tail\\", "{5}", "OK"],
-                  ["not active", "was Active", "x ACTIVE", "main"], ["ACTIVE", "active ", "z"]]:
+                  ["not active", "was Active", "x ACTIVE", "main"], ["ACTIVE", "active ", "z"], ['"draft', 'it"s', "z"], ['"', 'a"', "y"]]:
         for version in (True, False):
             srv = _rs.RefServer(r, scripts={}, version=version, literal_names="safe")
             ses = _m.Session()
